@@ -82,6 +82,7 @@ pub fn generate(rng: &mut Rng) -> NetScenario {
         clients,
         stop_at_ns: None,
         stop_before: false,
+        yields_before_stop: 0,
         cap_ns: secs(200),
     }
 }
